@@ -417,3 +417,86 @@ func H_C15_BatchCursor(shape int) {
 	}
 	verifrt.Assert(later >= 2, "C15.cursor-vacuous")
 }
+
+// ---- NULL columns read into maps: the key is present with a nil value, also in a
+// map that already holds another row (read paths agree with Find into structs)
+
+func N_C15_MapNull(tier int) int { return 3 }
+
+func H_C15_MapNull(shape int) {
+	s := NewStore()
+	v := verifrt.Int("v")
+	nullSecond := true
+	s.OnQuery = func(text string, args []driver.Value) RowSet {
+		rs := RowSet{Cols: []string{"id", "v"}}
+		if indexStr(text, "id = ?") >= 0 && len(args) > 0 {
+			if verifrt.SameValue(args[0], int64(1)) {
+				rs.Rows = [][]driver.Value{{int64(1), int64(v)}}
+			} else {
+				rs.Rows = [][]driver.Value{{int64(2), nil}}
+			}
+			return rs
+		}
+		rs.Rows = [][]driver.Value{{int64(1), int64(v)}, {int64(2), nil}}
+		return rs
+	}
+	_ = nullSecond
+	db := openReal(stubDialector{}, s, nil)
+	switch shape {
+	case 0:
+		var ms []map[string]interface{}
+		verifrt.Assert(db.Model(&KPtrInt{}).Find(&ms).Error == nil, "C15.error")
+		verifrt.Assert(len(ms) == 2, "C15.find-map-rows")
+		_, has := ms[1]["v"]
+		verifrt.Assert(has && ms[1]["v"] == nil, "C15.map-null-column")
+		verifrt.Assert(ms[0]["v"] != nil, "C15.map-value-lost")
+	case 1:
+		// one map used for two rows: the second row's NULL replaces the first row's value
+		m := map[string]interface{}{}
+		verifrt.Assert(db.Model(&KPtrInt{}).Where("id = ?", 1).Take(&m).Error == nil, "C15.error")
+		verifrt.Assert(m["v"] != nil, "C15.map-value-lost")
+		verifrt.Assert(db.Model(&KPtrInt{}).Where("id = ?", 2).Take(&m).Error == nil, "C15.error")
+		_, has := m["v"]
+		verifrt.Assert(has && m["v"] == nil, "C15.map-null-column")
+	case 2:
+		var rs []KPtrInt
+		verifrt.Assert(db.Find(&rs).Error == nil, "C15.error")
+		verifrt.Assert(len(rs) == 2 && rs[0].V != nil && *rs[0].V == v && rs[1].V == nil, "C15.struct-null-column")
+	}
+	verifrt.Reach("read")
+}
+
+// ---- FindInBatches on a chain that joins a table with a key column of the same
+// name: the cursor of the later batches names the model's own table
+
+func N_C15_BatchJoins(tier int) int { return 2 }
+
+func H_C15_BatchJoins(shape int) {
+	s := NewStore()
+	s.OnQuery = func(text string, args []driver.Value) RowSet {
+		rs := RowSet{Cols: []string{"id", "name", "companyid", "Company__id", "Company__name"}}
+		if indexStr(text, "`id` > ?") < 0 {
+			rs.Rows = [][]driver.Value{{int64(1), "o1", int64(5), int64(5), "c"}}
+		}
+		return rs
+	}
+	db := openReal(stubDialector{}, s, nil)
+	var os []Owner
+	var res *gorm.DB
+	if shape == 0 {
+		res = db.Joins("Company").FindInBatches(&os, 1, func(tx *gorm.DB, batch int) error { return nil })
+	} else {
+		res = db.Joins("JOIN companys ON companys.id = owners.companyid").FindInBatches(&os, 1, func(tx *gorm.DB, batch int) error { return nil })
+	}
+	verifrt.Reach("ran")
+	verifrt.Observe("log", s.Kinds())
+	verifrt.Assert(res.Error == nil, "C15.error")
+	later := 0
+	for _, e := range s.Log {
+		if e.Kind == "QUERY" && indexStr(e.Text, "`id` > ?") >= 0 {
+			later++
+			verifrt.Assert(indexStr(e.Text, "`owners`.`id` > ?") >= 0, "C15.cursor-column-not-qualified")
+		}
+	}
+	verifrt.Assert(later == 1, "C15.batches")
+}
